@@ -10,7 +10,7 @@ from . import treecheck
 
 ID = 'C06'
 LEVEL = 'model_checking'
-RULE = ('(viii) every body with 3 operators over the leaves {true, m(Vi)} (thorough: {true, m, z}) that contains true and one of ; -> \\+; ' '(i) every clause body tree with <= N operators from , ; -> \\+ over the 8 leaves {true fail ! z '
+RULE = ('(ix) every body with 3 operators over the leaves {m(Vi), m(V1)} (thorough: plus o) in which the same goal m(V1) stands at several places; (viii) every body with 3 operators over the leaves {true, m(Vi)} (thorough: {true, m, z}) that contains true and one of ; -> \\+; ' '(i) every clause body tree with <= N operators from , ; -> \\+ over the 8 leaves {true fail ! z '
         'o(Vi) m(Vi) m(V1) k(Vi)} that uses at least one of ; -> \\+ (cuts only in transparent positions), in '
         'the context of C05, with and without a continuation goal m(W) after the construct; (ii) every '
         'unparenthesised body l1 op1 l2 .. opk lk+1 (k <= K, ops from , ; ->, every leaf from {z o m true} '
@@ -43,6 +43,7 @@ def plan(tier):
     sh += [('long', k, 16) for k in range(16)]
     sh += [('tfocus', k, 16) for k in range(16)]
     sh += [('truefocus', k, 32, tier) for k in range(32)]
+    sh += [('sharedfocus', k, 32, tier) for k in range(32)]
     sh += [('seq', k, 16) for k in range(16)]
     if tier != 'quick':
         sh += [('spine', k, 256, 3, tier) for k in range(256)]
@@ -70,6 +71,8 @@ def run_shard(spec):
         return run_locals(spec)
     if spec[0] == 'long':
         return run_long(spec)
+    if spec[0] == 'sharedfocus':
+        return run_sharedfocus(spec)
     if spec[0] == 'truefocus':
         return run_truefocus(spec)
     if spec[0] == 'tfocus':
@@ -151,6 +154,24 @@ def run_truefocus(spec):
         if res['status'] == 'violation':
             res['sig'] = 'true-around-control-constructs:' + res['sig']
         account(acc, ('U', idx), case, res, key='%s truefocus' % bodies.show_tree(t))
+    return acc
+
+
+def run_sharedfocus(spec):
+    """3 operators over the leaves {m(Vi), m(V1)}: the SAME goal (same variable) at several places of a body,
+    e.g. at the start of both branches of a disjunction - each occurrence is a goal of its own"""
+    _, k, n, tier = spec
+    acc = Acc()
+    for idx, t in enumerate(bodies.trees(3, ['m', 's'] if tier == 'quick' else ['m', 's', 'o'])):
+        if idx % n != k:
+            continue
+        if select(t) is not None or not _has_leaf(t, 's'):
+            continue
+        case = treecheck.tree_case(t, continuation=True)
+        res = case.run()
+        if res['status'] == 'violation':
+            res['sig'] = 'same-goal-at-several-places:' + res['sig']
+        account(acc, ('S', idx), case, res, key='%s sharedfocus' % bodies.show_tree(t))
     return acc
 
 
